@@ -59,3 +59,9 @@ def face_idx(P, a, side):
 def cell_volume(w, S, P):
     """mesh.cellvolume at interior cell P (cell indices incl. ghosts -> volume array index P-1)"""
     return w.at(S['V'], tuple(p - 1 for p in P))
+
+
+class AxisOb(Ob):
+    """claims stated per axis (one explored part per axis keeps the index regions of the axes from multiplying)"""
+    def parts(self, w):
+        return list(range(w.nd))
